@@ -92,9 +92,17 @@ def extend {P α κ} (pr : Params P α κ) (peaks : List (List P)) :
 
 /-! ### points_to_line_segments -/
 
+/-- insertion into a sorted list, before the first element that is not smaller -/
+def insertBy {β} (le : β → β → Bool) (x : β) : List β → List β
+  | [] => [x]
+  | y :: ys => if le x y then x :: y :: ys else y :: insertBy le x ys
+
+/-- stable insertion sort (structural recursion, so that `decide` can evaluate the linker) -/
+def isort {β} (le : β → β → Bool) (l : List β) : List β := l.foldr (insertBy le) []
+
 /-- `np.argsort(keys)` (stable; NumPy's default sort is not, generators keep keys distinct) -/
 def argsort {κ} (kle : κ → κ → Bool) (keys : List κ) : List Nat :=
-  ((keys.zipIdx).mergeSort (fun a b => kle a.1 b.1)).map (·.2)
+  (isort (fun a b => kle a.1 b.1) keys.zipIdx).map (·.2)
 
 /-- the loop `for starting_point in np.argsort(...)` of one frame; finished lines are pushed
     (in time order) on `acc`, latest line first -/
